@@ -1,7 +1,7 @@
 (* Comparators and the computable square root used by the generated
    correspondence files of C04 / C05 (harness/props/netlist_common.py). *)
 From FrameModel Require Import Num.QcTac Geometry.Rect Cases.Cmp Yaml.Tree Yaml.NetlistRead
-  Yaml.NetlistWrite.
+  Yaml.NetlistWrite Yaml.NetlistReadForms.
 Open Scope Qc_scope.
 
 (* sqrt for evaluation: floor(sqrt(n*d*4^64)) / (d*2^64); exact on squares of
@@ -41,13 +41,39 @@ Definition mrect_eqb (a b : mrect) : bool :=
 Definition qpair_near (k : Z) (a b : Qc * Qc) : bool :=
   qnear k (fst a) (fst b) && qnear k (snd a) (snd b).
 
+(* association lists compared as mappings (keys are distinct on both sides: a
+   Python dict on one, nodup_keys / a writer that sets each key once on the other):
+   same number of entries, every key of a bound in b to a matching value.  The
+   property fixes the order of modules, of nets and of the rectangles of a module;
+   it does not fix the order of the attributes inside a module's mapping, of the
+   regions of an area, of the two sections of the document. *)
+Definition assoc_sim {A B} (f : string -> A -> B -> bool) (a : list (string * A)) (b : list (string * B)) : bool :=
+  Nat.eqb (List.length a) (List.length b) &&
+  forallb (fun kv => match lookup (fst kv) b with
+                     | Some v' => f (fst kv) (snd kv) v'
+                     | None => false
+                     end) a.
+
+(* lists compared as multisets *)
+Fixpoint remove_first {A B} (f : A -> B -> bool) (x : A) (l : list B) : option (list B) :=
+  match l with
+  | [] => None
+  | y :: r => if f x y then Some r
+              else match remove_first f x r with Some r' => Some (y :: r') | None => None end
+  end.
+Fixpoint multiset_eqb {A B} (f : A -> B -> bool) (a : list A) (b : list B) : bool :=
+  match a with
+  | [] => is_nil b
+  | x :: r => match remove_first f x b with Some b' => multiset_eqb f r b' | None => false end
+  end.
+
 Definition module_near (a b : module) : bool :=
   String.eqb (m_name a) (m_name b) &&
   opt_eqb (qpair_near 4) (m_center a) (m_center b) &&
   opt_eqb (qpair_near 4) (m_ar a) (m_ar b) &&
   Bool.eqb (m_terminal a) (m_terminal b) && Bool.eqb (m_hard a) (m_hard b) &&
   Bool.eqb (m_fixed a) (m_fixed b) && Bool.eqb (m_flip a) (m_flip b) &&
-  list_eqb (pair_eqb String.eqb Qceqb) (m_area a) (m_area b) &&
+  assoc_sim (fun _ x y => Qceqb x y) (m_area a) (m_area b) &&
   list_eqb mrect_eqb (m_rects a) (m_rects b).
 
 Definition net_eqb (a b : net) : bool :=
@@ -73,6 +99,30 @@ Fixpoint ytree_near (a b : ytree) {struct a} : bool :=
          | (k, x) :: r, (k', y) :: r' => String.eqb k k' && ytree_near x y && go r r'
          | _, _ => false
          end) m m'
+  | _, _ => false
+  end.
+
+(* the written document: the sections in any order; the modules in order, each
+   with its attributes in any order (the regions of an area in any order, the
+   rectangles in order); the nets in order *)
+Definition attr_near (k : string) (v v' : ytree) : bool :=
+  match v, v' with
+  | YMap m, YMap m' => assoc_sim (fun _ x y => ytree_near x y) m m'     (* area: {region: number} *)
+  | _, _ => ytree_near v v'
+  end.
+Fixpoint modules_near (a b : list (string * ytree)) : bool :=
+  match a, b with
+  | [], [] => true
+  | (k, YMap i) :: r, (k', YMap i') :: r' => String.eqb k k' && assoc_sim attr_near i i' && modules_near r r'
+  | _, _ => false
+  end.
+Definition written_near (a b : ytree) : bool :=
+  match a, b with
+  | YMap ra, YMap rb =>
+      assoc_sim (fun k v v' =>
+                   if String.eqb k KW_MODULES
+                   then match v, v' with YMap m, YMap m' => modules_near m m' | _, _ => false end
+                   else ytree_near v v') ra rb
   | _, _ => false
   end.
 
@@ -126,16 +176,24 @@ Definition rt_model (epsdef : option (Qc * Qc)) (t : ytree) : bool :=
 Definition check_case (epsdef : option (Qc * Qc)) (t : ytree) (o : observed) : bool :=
   rt_model epsdef t &&
   match read_netlist sqrt_a epsdef t, o with
-  | Reject r, ORejected l => is_nil l || reason_in r l
+  | Reject r, ORejected l => true      (* rejected by both; which assertion fired is no part of the property
+                                          (reported as a statistic: reason_agrees) *)
   | Ok n, OLoaded ms nets rects eps written sqd =>
       list_eqb module_near (nl_modules n) ms &&
       list_eqb net_eqb (nl_nets n) nets &&
-      list_eqb mrect_eqb (nl_rects n) rects &&
+      multiset_eqb mrect_eqb (nl_rects n) rects &&     (* Netlist.rectangles: the collection *)
       opt_eqb (qpair_near 64) (nl_eps n) eps &&
-      ytree_near (write_netlist n) written &&
+      written_near (write_netlist n) written &&
       list_eqb2 (fun e d => sqd_near (centre_scale ms) (net_sqdists (nl_modules n) e) d)
                (nl_nets n) sqd
   | _, _ => false
+  end.
+
+(* statistic only: the assertion that fired is the one the model fires ([] = message not recognised) *)
+Definition reason_agrees (epsdef : option (Qc * Qc)) (t : ytree) (o : observed) : bool :=
+  match read_netlist sqrt_a epsdef t, o with
+  | Reject r, ORejected l => is_nil l || reason_in r l
+  | _, _ => true
   end.
 
 (* which conjunct fails (for the replay files) *)
@@ -144,10 +202,18 @@ Definition explain_case (epsdef : option (Qc * Qc)) (t : ytree) (o : observed) :
   | Ok n, OLoaded ms nets rects eps written sqd =>
       [list_eqb module_near (nl_modules n) ms;
        list_eqb net_eqb (nl_nets n) nets;
-       list_eqb mrect_eqb (nl_rects n) rects;
+       multiset_eqb mrect_eqb (nl_rects n) rects;
        opt_eqb (qpair_near 64) (nl_eps n) eps;
-       ytree_near (write_netlist n) written;
+       written_near (write_netlist n) written;
        list_eqb2 (fun e d => sqd_near (centre_scale ms) (net_sqdists (nl_modules n) e) d)
                (nl_nets n) sqd]
   | _, _ => []
+  end.
+
+(* Netlist(x) for an x that is neither a tree nor a str (None, a number): read_yaml's
+   last branch.  The text layer is not consulted. *)
+Definition check_other (epsdef : option (Qc * Qc)) (o : observed) : bool :=
+  match read_source sqrt_a (fun _ => None) (fun _ => None) epsdef SrcOther, o with
+  | Rejected r, ORejected l => true
+  | _, _ => false
   end.
